@@ -32,11 +32,11 @@ MANIFEST = {
             "CongestionController and the pacer bucket: for every history of sends (three spaces, sizes, flags), ACK frames (ranges, ECN), clock advances, ticks, "
             "handshake flags and discards, and for every value of the RTT-filter inputs, bytes_in_flight equals the sum of the sizes of the counted in-flight packets "
             "(no saturating_sub ever saturates, no checked subtraction underflows), the window stays >= 2 datagrams, grows only on acknowledgements outside recovery, "
-            "an acknowledged packet is never declared lost (also as a trace theorem over every continuation), a declared loss satisfies the coded time or index threshold, an expired timer either declares losses or "
-            "requests a probe and increments pto_count, and TooManyPtos is returned exactly above 6. Three RFC 9002 clauses are REFUTED on the faithful model with "
-            "vm_compute witnesses that replay on the real controller (F15 loss by age alone, F16 quota ignores bytes_in_flight, F17 only the variance term of the PTO "
-            "is backed off) plus F25 (a second window reduction per loss event via the 3-consecutive-loss 'persistent' rule); each has a conditional theorem outside "
-            "its class. The model is tied to the Rust by running the extracted model and the real ArcCC (paused tokio clock) on the same op lists every run, and every "
+            "an acknowledged packet is never declared lost (also as a trace theorem over every continuation), an operation outside the F25 class takes at most one datagram off the window, every state visited by run_cc is reachable, a declared loss satisfies the coded time or index threshold, an expired timer either declares losses or "
+            "requests a probe and increments pto_count, and TooManyPtos is returned exactly above 6. After the `fix:` commits for F16 and F17 the clauses 'successive PTO intervals double' and 'a burst admitted by send_quota "
+            "keeps bytes_in_flight within the window (one datagram of overshoot for a pending probe)' are proved at full strength on the model of the fixed code. Two RFC 9002 "
+            "clauses remain REFUTED on the faithful model with vm_compute witnesses that replay on the real controller (F15 loss by age alone, F25 a second window reduction "
+            "per loss event via the 3-consecutive-loss 'persistent' rule); each has a conditional theorem outside its class. The model is tied to the Rust by running the extracted model and the real ArcCC (paused tokio clock) on the same op lists every run, and every "
             "clause is also evaluated directly on the implementation's observations by a Python oracle.",
     "note": "Level partial by design: the floating-point RTT filter and the pacer's float refill are inputs read from the implementation on every step, and real timers "
             "are runtime (explicit TICKs under a paused clock). Trusted: Coq kernel, extraction, OCaml driver, Rust harness + 4 read-only cfg hooks, Python generators/oracle.",
@@ -126,7 +126,7 @@ def ack_ranges(a):
     return [(r[i], r[i + 1]) for i in range(0, len(r) - 1, 2)]
 
 
-KNOWN_PREFIX = {"F15": "F15", "F16": "F16", "F17": "F17", "F25": "F25"}
+KNOWN_PREFIX = {"F15": "F15", "F25": "F25"}      # F16, F17 repaired by `fix:` commits: a reappearance is a violation
 
 
 def oracle_all(case, obs):
@@ -144,6 +144,8 @@ def oracle_all(case, obs):
     gone = [set(), set(), set()]          # discarded
     outstanding = {}                      # (e, pn) -> bytes  (in-flight counted, unresolved)
     budget = 0
+    quota_probe = False
+    quota_bif = 0
     prev = None
     reductions = []                       # (time, cleared_recovery)
     last_pto = None                       # (count, interval, srtt, rttvar)
@@ -204,6 +206,8 @@ def oracle_all(case, obs):
             budget = 0
         if tag == 6 and o.result > 0:
             budget = o.result
+            quota_probe = any(s.need > 0 for s in o.sp)        # RFC 9002 7.5: a pending PTO probe may exceed the window
+            quota_bif = o.bif
 
         # --- a packet reported lost: sent, unresolved, never acknowledged; loss rule
         for (e, pn) in o.lost:
@@ -296,7 +300,7 @@ def oracle_all(case, obs):
             interval = o.timer - now
             if last_pto is not None and last_pto[0] + 1 == o.pto and last_pto[2:] == (o.srtt, o.rttvar):
                 if interval != 2 * last_pto[1]:
-                    msgs.append("F17 ptodouble: op %d PTO interval after %d expiries is %d ns, previous %d ns: ratio %.3f, not 2 (srtt %d, rttvar %d)"
+                    msgs.append("ptodouble: op %d PTO interval after %d expiries is %d ns, previous %d ns: ratio %.3f, not 2 (srtt %d, rttvar %d)"
                                 % (k, o.pto, interval, last_pto[1], interval / max(1, last_pto[1]), o.srtt, o.rttvar))
             last_pto = (o.pto, interval, o.srtt, o.rttvar)
         elif prev is not None and (o.pto != prev.pto or o.timer != prev.timer):
@@ -305,9 +309,9 @@ def oracle_all(case, obs):
             else:
                 last_pto = None
         # --- the sender does not add in-flight bytes beyond the window
-        if admitted and o.bif > o.cwnd:
-            msgs.append("F16 window: op %d bytes_in_flight %d exceeds the congestion window %d after a send admitted by send_quota"
-                        % (k, o.bif, o.cwnd))
+        if admitted and o.bif > (max(o.cwnd, quota_bif + mtu) if quota_probe else o.cwnd):
+            msgs.append("window: op %d bytes_in_flight %d exceeds the congestion window %d after a send admitted by send_quota%s"
+                        % (k, o.bif, o.cwnd, " (probe pending: one datagram of overshoot allowed)" if quota_probe else ""))
         # --- pacer sanity
         if o.tokens > o.cap:
             msgs.append("tokens: op %d pacer tokens %d above capacity %d" % (k, o.tokens, o.cap))
@@ -328,7 +332,7 @@ def oracle(case, obs):
     new = [m for m in msgs if not is_known(m)]
     if new:
         return new[0]
-    for fid in ("F25", "F17", "F16", "F15"):      # rarest class first, so that no class masks another across a batch
+    for fid in ("F25", "F15"):      # rarest class first, so that no class masks another across a batch
         for m in msgs:
             if m.startswith(fid + " "):
                 return m
